@@ -302,6 +302,15 @@ int reader_init_block_reader(struct reftable_reader *r, struct block_reader *br,
 		return 1;
 	}
 
+	if (block_typ == BLOCK_TYPE_LOG) {
+		/* block_size is the inflated size. Incompressible data
+		   deflates to slightly more than its size (stored blocks,
+		   zlib header and checksum): read enough for the worst
+		   case. */
+		block_size += (block_size >> 12) + (block_size >> 14) +
+			      (block_size >> 25) + 13;
+	}
+
 	if (block_size > guess_block_size) {
 		reftable_block_done(&block);
 		err = reader_get_block(r, &block, next_off, block_size);
